@@ -6,6 +6,13 @@ from common import *  # noqa
 def multi_node_inv(rng, fail=0.0):
     inv, names, incl = G.include_graph_inv(rng, nclasses=rng.randint(2, 6), conflicts=False, refs=0.1)
     inv.nodes = {}
+    odd = []
+    if rng.random() < 0.3:
+        # classes whose names start with a marker character: ordinary class names
+        for nm in rng.sample(['~legacy', '=pinned', '~', 'a~b'], rng.randint(1, 2)):
+            inv.classes[(nm + '.yml',)] = G.doc([], [rng.choice(['web', 'oddapp'])], ('m', [(S('trace'), L(S(nm)))]))
+            inv.universe.add(nm)
+            odd.append(nm)
     nn = rng.randint(2, 10)
     failing = set()
     pool = ['web', 'web-1', 'web.1', 'a', 'a.1', 'a-b', 'b', 'Z', 'z', 'n10', 'n9', 'n09', '_x', 'x_', 'é', 'aa', 'a_']
@@ -25,6 +32,8 @@ def multi_node_inv(rng, fail=0.0):
         cl = ['sel'] + roots
         if rng.random() < 0.15:
             cl = []            # a node that includes no class (its applications still count)
+        if odd and rng.random() < 0.5:
+            cl.insert(rng.randint(0, len(cl)), rng.choice(odd))      # class names that look like markers
         if style == 'plain':
             path, node_name = ('n%02d.yml' % i,), 'n%02d' % i
         elif style == 'pool':
